@@ -68,7 +68,7 @@ def draw_cfg(rng, engine):
         'share': rng.choice([0.3, 0.6, 0.85]),
         'p_nest': 0.0 if engine == 'H' else rng.choice([0.3, 0.6, 0.9]),
         'p_cancel': rng.choice([0.0, 0.05, 0.15]),
-        'p_check': rng.choice([0.0, 0.2]),
+        'p_check': rng.choice([0.1, 0.3]),
         'p_alias': rng.choice([0.03, 0.08, 0.15]),
         'yield_mean': rng.choice([30, 200, 1500, 8000]),
         'p_repeat': rng.choice([0.0, 0.08, 0.2, 0.35]),
